@@ -167,6 +167,11 @@ func init() {
 	harnessAPI["vRealLe"] = func(r *Run, fr *frame, args []Value) Value {
 		return r.floatCmp(fr, token.LEQ, args[0].(Float), args[1].(Float))
 	}
+	harnessAPI["vTimersQuiet"] = func(r *Run, fr *frame, args []Value) Value {
+		r.timersQuiet = true
+		r.noteAssumption("one-shot timers (time.NewTimer / time.After: time-outs) never fire in this harness; tickers do")
+		return nil
+	}
 	harnessAPI["vStubFunc"] = func(r *Run, fr *frame, args []Value) Value {
 		if r.stubFuncs == nil {
 			r.stubFuncs = map[string]Value{}
@@ -547,4 +552,18 @@ func deepCopy(v Value) Value {
 		return out
 	}
 	return copyVal(v)
+}
+
+// ---- encoding/json: an opaque, injective token of the marshalled value (header text is
+// not examined by any harness; only that something deterministic is written once)
+func init() {
+	tok := func(r *Run, fr *frame, args []Value) Value {
+		txt := fmt.Sprintf("{json:%v}", r.goValue(args[0], nil))
+		out := make(Slice, len(txt))
+		for i := 0; i < len(txt); i++ {
+			out[i] = r.tt.Const(8, uint64(txt[i]))
+		}
+		return Tuple{out, Iface{}}
+	}
+	reg(tok, "encoding/json.Marshal", "encoding/json.MarshalIndent")
 }
